@@ -836,6 +836,8 @@ def run(tier, seed, replay=None):
                 hist["ops"][rec["op"]] = hist["ops"].get(rec["op"], 0) + 1
                 if rec["exc"]:
                     hist["exceptions"][rec["exc"]] = hist["exceptions"].get(rec["exc"], 0) + 1
+                if rec.get("poked"):
+                    hist["inplace_edits_that_moved_colliders"] = hist.get("inplace_edits_that_moved_colliders", 0) + 1
                 n = len(rec.get("snap", {}).get("entries", []))
                 if rec["op"] in ("query", "self") and rec.get("r") and len(rec["r"]) < max(1, n * (n - 1) if rec["op"] == "self" else n):
                     nt = True
